@@ -17,36 +17,9 @@ use nd::any;
 use threefish_cipher::verif_incrate as ic;
 use threefish_cipher::{Threefish1024, Threefish256, Threefish512};
 
-// ---- uninterpreted MIX ----
-pub const MAXC: usize = 640;
-pub static mut UF_R: [u32; MAXC] = [0; MAXC];
-pub static mut UF_X: [(u64, u64); MAXC] = [(0, 0); MAXC];
-pub static mut UF_Y: [(u64, u64); MAXC] = [(0, 0); MAXC];
-pub static mut UF_N: usize = 0;
-pub static mut SPEC_K: usize = 0;
-pub fn mix_uf(r: u32, x: (u64, u64)) -> (u64, u64) {
-    unsafe {
-        let k = UF_N;
-        assert!(k < MAXC);
-        UF_R[k] = r;
-        UF_X[k] = x;
-        let y: (u64, u64) = (any(), any());
-        UF_Y[k] = y;
-        UF_N = k + 1;
-        y
-    }
-}
-pub fn spec_mix(r: u32, x: (u64, u64)) -> (u64, u64) {
-    unsafe {
-        let k = SPEC_K;
-        SPEC_K += 1;
-        assert!(k < UF_N, "OBL uf_call_exists");
-        assert!(r == UF_R[k], "OBL rotation_constant_matches_spec_schedule");
-        assert!(x.0 == UF_X[k].0 && x.1 == UF_X[k].1, "OBL mix_arguments_match_spec");
-        UF_Y[k]
-    }
-}
-
+#[path = "../common/mixuf.rs"]
+pub mod mixuf;
+pub use mixuf::*;
 #[cfg(kani)]
 macro_rules! harness { ($name:ident, $body:expr) => { #[kani::proof] pub fn $name() { $body } }; }
 #[cfg(kani)]
